@@ -70,7 +70,7 @@ func FamiliesC03(tier string) []world.Family {
 }
 
 func OptionsC03(tier string) Options {
-	o := Options{MaxRetries: 1, SizeVariants: []uint{0, 1}, PrevLERNilToo: true}
+	o := Options{MaxRetries: 1, SizeVariants: []uint{0, 1}, PrevLERNilToo: true, L2ReorgEpilogue: true}
 	if tier == "thorough" {
 		o.SizeVariants = []uint{0, 1, 300} // 300 bytes: room for about two bridge exits, no claim
 	}
@@ -82,7 +82,7 @@ const RuleC03 = "unit = one scenario: an operation sequence of a world family (a
 	"by block; at every stage the real builder is run in every aggsender storage state reachable by cutting the history so far " +
 	"into certificates (none / last settled / last in error, retried at once or later; with and without a stored previous LER) " +
 	"and for each certificate size limit; every built certificate is one evaluation. non-trivial = a scenario in which at least " +
-	"one certificate was built; distinct = distinct (scenario, stage, storage state, size limit, block range, new LER)."
+	"one certificate was built; distinct = distinct (scenario, stage, storage state, size limit, block range, new LER). After the last stage: the L2 block holding the last L2 bridge is reorged away and replaced by a fork with a different bridge, and certificates are rebuilt in every storage state that does not depend on the dropped block, with the same long-lived flow and querier objects."
 
 var Assumptions = []string{
 	"stores are filled through the real processors with the event values the real downloaders produce (field for field); the downloaders' log parsing is covered elsewhere (C05, C20)",
